@@ -647,6 +647,7 @@ func runHandCase(c *HCase) {
 		return false
 	}
 	kinds := []string{"fold", "check", "call", "allin", "bet", "raise", "pass", "ready", "pay"}
+	ir := NewRNG(c.Seed ^ 0x5bd1e995) // a stream of its own: the other draws of a history stay what they were
 	hands := 0
 	for step := 0; step < 600 && hands < c.Hands; step++ {
 		t := d.te.GetTable()
@@ -846,6 +847,20 @@ func runHandCase(c *HCase) {
 			}
 			act, chips := pol.choose(gs.Status.CurrentWager, gs.Status.PreviousRaiseSize, gs.Status.MiniBet, p.AllowedActions, p.InitialStackSize, p.StackSize, p.Wager)
 			call := HCall{Player: idOf(d.playerIDAt(gp)), Action: act, Chips: chips, Why: "turn"}
+			// the player to act first asks for something the hand engine refuses on its merits (a raise that is no raise, a bet below
+			// the minimum): the request fails and the hand is as it was
+			if c.IllegalPct > 0 && ir.Chance(12, 100) {
+				var ms *HStep
+				if has(p.AllowedActions, "raise") {
+					ms = hr.attempt(c, HCall{Player: call.Player, Action: "raise", Chips: gs.Status.CurrentWager - int64(ir.Intn(2)), Why: "turn"}, true)
+				} else if has(p.AllowedActions, "bet") && gs.Status.MiniBet > 1 {
+					// (the hand engine takes a bet below the minimum: then that was this turn's action)
+					ms = hr.attempt(c, HCall{Player: call.Player, Action: "bet", Chips: 1, Why: "turn"}, true)
+				}
+				if ms != nil && (ms.Ok || stuck(ms) || ms.Wedged) {
+					continue
+				}
+			}
 			// the backend may fail this call once, twice, ... ; the same action is then submitted again
 			fails := 0
 			for fr.Chance(c.FaultPct, 100) && fails < 3 {
@@ -1190,5 +1205,7 @@ func (c HCase) Coq() string {
 	if c.Twin != nil {
 		tw, has = coqFinal(c.Twin.Final), true
 	}
-	return fmt.Sprintf("mkcase %s [%s] %s %s %v", coqZi(c.ActionTime), strings.Join(xs, ";\n    "), coqFinal(c.Final), tw, has)
+	// the history ended because the hand could not go on although nothing was made to fail and nobody left
+	stranded := c.Note == "nobody to act" || c.Note == "wedged" || c.Note == "stuck after a withheld answer" || strings.HasPrefix(c.Note, "unexpected event")
+	return fmt.Sprintf("mkcase %s [%s] %s %s %v %v", coqZi(c.ActionTime), strings.Join(xs, ";\n    "), coqFinal(c.Final), tw, has, stranded)
 }
